@@ -25,7 +25,8 @@ RULE = (
     "prefix, redundant re-statement, two prefixes sharing a remote, two remotes sharing a cache, a longer prefix "
     "overriding the remote, one remote paired with two caches, prefixes strictly inside a tracked directory "
     "that redirect the remote of a sub-directory or file, outer prefixes carrying only the cache), 1-3 caches and 1-3 remotes of both local store classes, remote index on/off, "
-    "tmp_dir on the caches on/off (drawn independently), read_only=True on the remote / cache storage of a prefix "
+    "legacy prefixes (entries named md5-dos2unix mapped, for every role, to odbs created with "
+    "hash_name=md5-dos2unix) next to md5 prefixes with md5 odbs, tmp_dir on the caches on/off (drawn independently), read_only=True on the remote / cache storage of a prefix "
     "(independent per prefix; a read-only remote already holds everything below its prefix), a plain tracked file under another remote of the same "
     "cache whose content equals a file inside a tracked directory, closed pre-existing remote contents, explicit "
     "collection index on/off, and a fault plan: object ids whose "
@@ -73,6 +74,13 @@ ASSUMPTIONS = [
     "to the outer remote if its cache happens to hold them; the statement only demands delivery to the "
     "designated remote, so such extras (still objects of the index, under that remote's prefix) are tolerated "
     "and equality is demanded only for maps without remote overrides (class 'exact')",
+    "hash flavours: every entry is mapped to stores of its own hash algorithm (what DVC does: legacy "
+    "md5-dos2unix outputs go to legacy odbs, md5 outputs to md5 odbs, per cache and per remote). In a quarter of "
+    "the flows each family of stores that serves the same entries draws hash_name md5 or md5-dos2unix; the "
+    "entries mapped to it (plain files, whole unloaded directories) are named accordingly, so an index may mix "
+    "md5 and legacy prefixes with their own stores. Workspace contents are then CRLF-neutral (both algorithms "
+    "give one value). An entry named differently from the odb it is mapped to is outside the domain: an odb "
+    "re-hashes its objects with its own algorithm",
     "read_only storages: the property text is silent about them. A remote registered read_only=True is "
     "populated by the harness beforehand with every object below its prefix (a shared / imported dataset), so a "
     "push has nothing to move there and nothing is demanded of it beyond truthful counts; fetch from it must "
@@ -84,6 +92,7 @@ ASSUMPTIONS = [
 ]
 
 SIG = "md5"
+LEGACY = "md5-dos2unix"
 ENUM_CAP = 10
 KNOWN_SHAPE = "collect-one-remote-two-caches"
 
@@ -231,6 +240,7 @@ def run_pure(case, ctx):  # noqa: C901, PLR0912, PLR0915
 _NAMES = gen.names()
 _CONTENT = st.one_of(gen.small_contents(), gen.small_contents(), gen.contents())
 _KIND = st.sampled_from(["file", "dir", "dir", "group"])
+_HNAME = st.sampled_from(["md5", "md5-dos2unix"])
 _RO_REMOTE = st.sampled_from([False] * 7 + [True])
 _RO_CACHE = st.sampled_from([False] * 11 + [True])
 
@@ -288,6 +298,18 @@ def flow_cases(draw):  # noqa: C901, PLR0912, PLR0915
         if nm not in ws:
             ws[nm] = copy.deepcopy(_get(ws, src))
             cands.append([nm])
+    # legacy hash flavour (md5-dos2unix entry names / odb hash_name): contents are made CRLF-neutral so that both
+    # flavours name the same object
+    use_legacy = draw(st.integers(0, 3)) == 0
+
+    def neutral(node):
+        if isinstance(node, dict):
+            return {k: neutral(v) for k, v in node.items()}
+        b = gen.content_bytes(node)
+        return node if ref.ref_hash(b, LEGACY) == ref.ref_hash(b) else "p:lf"
+
+    if use_legacy:
+        ws = neutral(ws)
     flags = [draw(st.integers(0, 3)) > 0 for _ in cands]
     if not any(flags):
         flags[draw(st.integers(0, len(cands) - 1))] = True
@@ -419,6 +441,34 @@ def flow_cases(draw):  # noqa: C901, PLR0912, PLR0915
     order = draw(st.permutations(list(range(len(prefixes)))))
     prefixes = [prefixes[i] for i in order]
 
+    # hash flavours: stores that serve the same entries (or are paired by a prefix) share one algorithm; each such
+    # family of stores is md5 or, in legacy mode, possibly md5-dos2unix
+    parent = {}
+
+    def find(x):
+        parent.setdefault(x, x)
+        while parent[x] != x:
+            parent[x] = parent[parent[x]]
+            x = parent[x]
+        return x
+
+    def union(a, b):
+        parent[find(a)] = find(b)
+
+    for p in prefixes:
+        pr = resolve(prefixes, p["key"])[1]
+        if pr["cache"] is None:
+            continue
+        if pr["remote"] is not None:
+            union(("c", pr["cache"]), ("r", pr["remote"]))
+        for k in tracked:
+            if is_prefix(p["key"], k) or is_prefix(k, p["key"]):
+                union(("c", pr["cache"]), ("c", resolve(prefixes, k)[1]["cache"]))
+    flavour = {}
+    for node in sorted({find(("c", i)) for i in range(nc)} | {find(("r", j)) for j in range(nr)}):
+        flavour[node] = draw(_HNAME) if use_legacy else SIG
+    cache_hash = [flavour[find(("c", i))] for i in range(nc)]
+    remote_hash = [flavour[find(("r", j))] for j in range(nr)]
     plan = draw(st.sampled_from(["fail", "fail", "fail", "none"]))
     case = {
         "kind": "flow",
@@ -426,6 +476,8 @@ def flow_cases(draw):  # noqa: C901, PLR0912, PLR0915
         "tracked": tracked,
         "prefixes": prefixes,
         "wiring": draw(st.sampled_from(["setitem", "setitem", "add"])),
+        "cache_hash": cache_hash,
+        "remote_hash": remote_hash,
         "cache_kinds": [draw(st.sampled_from(ops.STORE_KINDS)) for _ in range(nc)],
         "remote_kinds": [draw(st.sampled_from(ops.STORE_KINDS)) for _ in range(nr)],
         "remote_index": draw(st.booleans()),
@@ -486,6 +538,27 @@ def _walk_files(root):
     return out
 
 
+def _flavour_problem(case, m):
+    """Every entry is mapped to stores of its own hash algorithm (what DVC does: legacy md5-dos2unix outputs go to
+    legacy odbs, md5 outputs to md5 odbs, per cache and per remote).  None if the case keeps that."""
+    chn = case.get("cache_hash") or [SIG] * len(case["cache_kinds"])
+    rhn = case.get("remote_hash") or [SIG] * len(case["remote_kinds"])
+    if LEGACY not in chn and LEGACY not in rhn:
+        return None
+    if not all(ref.ref_hash(b, LEGACY) == ref.ref_hash(b) for b in m.flat.values()):
+        return "legacy stores with contents whose md5-dos2unix differs from their md5"
+    for p in case["prefixes"]:
+        r = resolve(case["prefixes"], p["key"])[1]
+        if r["cache"] is not None and r["remote"] is not None and chn[r["cache"]] != rhn[r["remote"]]:
+            return "a prefix pairs a cache and a remote of different hash algorithms"
+        if r["cache"] is None:
+            continue
+        for k in m.tracked:
+            if (is_prefix(p["key"], k) or is_prefix(k, p["key"])) and chn[r["cache"]] != chn[m.res[k]["cache"]]:
+                return "an entry lies under prefixes of different hash algorithms"
+    return None
+
+
 def run_flow(case, ctx):  # noqa: C901, PLR0912, PLR0915
     from dvc_objects.fs.local import LocalFileSystem
 
@@ -501,6 +574,8 @@ def run_flow(case, ctx):  # noqa: C901, PLR0912, PLR0915
 
     m = Model(case)
     why = m.domain_problem()
+    if why is None:
+        why = _flavour_problem(case, m)
     if why is not None:
         return Result([], False, ["out-of-domain"], {})
     viols = []
@@ -511,9 +586,14 @@ def run_flow(case, ctx):  # noqa: C901, PLR0912, PLR0915
         gen.materialise(case["ws"], wsdir)
         croots = [os.path.join(d, f"c{i}") for i in range(nc)]
         cconf = {"tmp_dir": os.path.join(d, "ctmp")} if case.get("cache_tmp") else {}
-        caches = [ops.make_odb(k, croots[i], **cconf) for i, k in enumerate(case["cache_kinds"])]
+        chn = case.get("cache_hash") or ["md5"] * nc
+        rhn = case.get("remote_hash") or ["md5"] * nr
+        # every entry is named after the hash algorithm of the stores it is mapped to
+        legacy = {i for i, k in enumerate(m.tracked) if chn[m.res[k]["cache"]] == LEGACY}
+        caches = [ops.make_odb(k, croots[i], hash_name=chn[i], **cconf) for i, k in enumerate(case["cache_kinds"])]
         # remotes of the save phase are never touched (save only uses the cache role)
-        remotes0 = [ops.make_odb(k, os.path.join(d, f"r{i}")) for i, k in enumerate(case["remote_kinds"])]
+        remotes0 = [ops.make_odb(k, os.path.join(d, f"r{i}"), hash_name=rhn[i])
+                    for i, k in enumerate(case["remote_kinds"])]
 
         def wire(idx, caches, remotes):
             smap = idx.storage_map
@@ -579,7 +659,10 @@ def run_flow(case, ctx):  # noqa: C901, PLR0912, PLR0915
                     meta = Meta(size=len(m.bytes[e["oid"]]))
                 else:
                     meta = Meta()
-                idx[k] = DataIndexEntry(key=k, meta=meta, hash_info=HashInfo(SIG, e["oid"]))
+                # legacy entries carry the name md5-dos2unix; the value is the same (contents are CRLF-free then),
+                # and stores are addressed by value
+                name = LEGACY if m.tracked.index(k) in legacy else SIG
+                idx[k] = DataIndexEntry(key=k, meta=meta, hash_info=HashInfo(name, e["oid"]))
             wire(idx, caches, remotes)
             return idx
 
@@ -648,7 +731,7 @@ def run_flow(case, ctx):  # noqa: C901, PLR0912, PLR0915
             o = {}
             roots = [os.path.join(d, f"r{i}{tag}") for i in range(nr)]
             conf = {"tmp_dir": os.path.join(d, "tmp" + tag)} if case["remote_index"] else {}
-            rem = [ops.make_odb(k, roots[i], **conf) for i, k in enumerate(case["remote_kinds"])]
+            rem = [ops.make_odb(k, roots[i], hash_name=rhn[i], **conf) for i, k in enumerate(case["remote_kinds"])]
             for ti, how in case["pre"]:
                 k = m.tracked[ti % len(m.tracked)]
                 e = m.entries[k]
@@ -752,8 +835,10 @@ def run_flow(case, ctx):  # noqa: C901, PLR0912, PLR0915
         before, inj, froots, after2, new2 = P["before"], P["inj"], P["froots"], P["after2"], P["new2"]
 
         def mk_stores():
-            return ([ops.make_odb(k, croots[i], **cconf) for i, k in enumerate(case["cache_kinds"])],
-                    [ops.make_odb(k, rroots[i], **rconf) for i, k in enumerate(case["remote_kinds"])])
+            return ([ops.make_odb(k, croots[i], hash_name=chn[i], **cconf)
+                     for i, k in enumerate(case["cache_kinds"])],
+                    [ops.make_odb(k, rroots[i], hash_name=rhn[i], **rconf)
+                     for i, k in enumerate(case["remote_kinds"])])
 
         # Behind a manifest known finding the search goes on with the entries that no shaped remote requests
         # (the others cannot be fetched: their objects never reached the remote).
@@ -964,6 +1049,14 @@ def run_flow(case, ctx):  # noqa: C901, PLR0912, PLR0915
             cl.append("remote-prepopulated")
         if case["remote_index"]:
             cl.append("remote-index")
+        if legacy:
+            cl.append("legacy-named-entry")
+            if any(m.entries[m.tracked[i]]["isdir"] for i in legacy):
+                cl.append("legacy-named-directory")
+        if LEGACY in chn or LEGACY in rhn:
+            cl.append("odb-hash-name=md5-dos2unix")
+        if legacy and len(legacy) < len(m.tracked):
+            cl.append("index-mixes-md5-and-legacy-prefixes")
         if case.get("cache_tmp"):
             cl.append("cache-tmp-dir")
         ro_r = {p["remote"] for p in case["prefixes"] if p["remote"] is not None and p.get("remote_ro")
